@@ -67,10 +67,10 @@ Qed.
 (* ---- multilabel_encoding / prediction_encoding: a fold that assigns into an array of the
    vocabulary's length ---- *)
 Lemma fold_set_ok {A B} (key : B -> tag) (val : B -> A) vocab
-      (body : list A -> B -> res (lres (list A) (list A))) :
+      (body : list A -> B -> res (bres (list A) (list A))) :
   (forall acc x, body acc x = match encode h vocab (key x) with
-                              | Some i => bind (py_set_nth acc i (val x)) (fun acc' => Ok (LDone acc'))
-                              | None => Ok (LDone acc)
+                              | Some i => bind (py_set_nth acc i (val x)) (fun acc' => Ok (BNext acc'))
+                              | None => Ok (BNext acc)
                               end) ->
   forall (items : list B) (acc : list A),
   length acc = length vocab ->
